@@ -1,7 +1,8 @@
 (* C13 -- access lists exactly the non-N runs of the genome, joined and excluded as asked.
    Property theorems only; proofs live in Proofs/Access*.v. *)
 From CNV Require Import Base.Prelude Base.Str Spec.Runs Spec.Regions Model.Access
-  Proofs.Access Proofs.AccessJoin Gen.AccessDefaults.
+  Proofs.Access Proofs.AccessJoin Gen.AccessDefaults
+  Model.IvRow Spec.Cover Model.AccessPipe Proofs.AccessPipe.
 
 (* For every FASTA record, whatever the line width (any cut of the sequence into
    non-empty lines), the scanner returns exactly `runs` of the concatenated
@@ -76,3 +77,16 @@ Example C13_contigs_examples :
      "chr6_GL000250v2_alt"; "chrEBV"; "chr6_apd_hap1"]%string
   = [true; true; false; false; false; false; false; false; false; false].
 Proof. reflexivity. Qed.
+
+(* Exclusion: subtracting any number of exclude tables -- rows overlapping, nested or
+   duplicated, each table sorted by start as tabio.read leaves it -- leaves exactly the
+   bases of the non-N runs that lie in none of them (rests on the C06 subtract theorem). *)
+Theorem C13_exclude : forall (excls : list (list (Z * Z))) (runs : list (Z * Z)) (x : Z),
+  Forall (fun ex => sorted_lo (to_rows ex)) excls ->
+  (cov (exclude_all runs excls) x <-> cov runs x /\ Forall (fun ex => ~ cov ex x) excls).
+Proof. exact exclude_all_cov. Qed.
+
+Example C13_exclude_nested :
+  exclude_all [(0, 100); (200, 300)] [[(10, 90); (20, 30)]; [(50, 250)]] = [(0, 10); (250, 300)]
+  /\ Forall (fun ex => sorted_lo (to_rows ex)) [[(10, 90); (20, 30)]; [(50, 250)]].
+Proof. split; [vm_compute; reflexivity|repeat constructor; cbn; lia]. Qed.
